@@ -5,7 +5,7 @@ from .histories import gen_config, gen_history, no_octopus_of
 PID = 'C03'
 OWN_STREAM = True
 TABLES = ['Build']
-LEAN_TARGETS = ['BertE.Props.C03']
+LEAN_TARGETS = ['BertE.Props.C03', 'BertE.Props.Full']
 ASSUMPTIONS = [
     'C03_queue: the selection of the queue evaluation has green heads; C03_queue_closed discharges this for the '
     'selection computed by the model of QueueCollection._process on the state (Model/Select.lean) under '
@@ -78,11 +78,17 @@ def correspondence(ctx):
     evalsys.phase(ctx, res, PID)
     from . import selectsys       # additional phase: the selection is computed by the model, not read from the run
     res.merge(selectsys.phase(ctx, PID))
+    # the CLOSED system (Model/Full.lean, C03_full_*): whole histories predicted from webhook-level events; C03 oracle
+    # on every movement of a destination (harness/fullsys.py)
+    from . import fullsys
+    fullsys.phase(ctx, res, PID)
     return res
 
 
 def replay(ctx, payload):
-    from . import evalsys
+    from . import evalsys, fullsys
+    if fullsys.is_mine(payload):
+        return fullsys.replay(ctx, payload)
     if evalsys.is_mine(payload):
         return evalsys.replay(ctx, payload)
     inp = payload['failure']['input'] if 'failure' in payload else payload.get('input', {})
